@@ -218,11 +218,13 @@ class String(Primitive):
         return self._value
 
     def __hash__(self) -> int:
-        return hash(self._value)
+        return hash(unicodedata.normalize("NFC", self._value))
 
     def __eq__(self, other: object) -> bool:
+        # Strings are identified by their NFC-normalized form, consistently with the DSDL equality operator (see _equal()),
+        # so that set elements which compare equal in DSDL are one element.
         if isinstance(other, String):
-            return self._value == other._value
+            return unicodedata.normalize("NFC", self._value) == unicodedata.normalize("NFC", other._value)
         return NotImplemented  # pragma: no cover
 
     def __str__(self) -> str:
